@@ -389,6 +389,7 @@ class ExcAnalysis:
                     return []
                 return ["KeyError"]
             if isinstance(v, (list, tuple)):
+                self._cur_ex = ex
                 if self._index_in_range(idx, len(v), e):
                     return []
                 return ["IndexError"]
@@ -452,6 +453,11 @@ class ExcAnalysis:
                 op, l, rr = a[1], a[2], a[3]
                 if op == "Truthy" and unsnap(l) is x:
                     lb = max(lb, 1)
+                if op == "Truthy":
+                    # `if len(x) % k:` -- a non-zero remainder needs len(x) >= 1
+                    u = unsnap(l)
+                    if u.op == "bin" and u.args[0] == "Mod" and unsnap(u.args[1]).op == "len" and unsnap(unsnap(u.args[1]).args[0]) is x and is_const(u.args[2]) and isinstance(cval(u.args[2]), int) and cval(u.args[2]) > 0:
+                        lb = max(lb, 1)
                 if rr is None:
                     continue
                 l, rr = unsnap(l), unsnap(rr)
@@ -482,6 +488,8 @@ class ExcAnalysis:
                 for u, v in ((l, rr), (rr, l)):
                     if op == "Eq" and u.op == "bin" and u.args[0] == "Mod" and unsnap(u.args[1]).op == "len" and unsnap(unsnap(u.args[1]).args[0]) is x and is_const(v) and isinstance(cval(v), int) and cval(v) >= 1:
                         lb = max(lb, cval(v))
+                    if op == "NotEq" and u.op == "bin" and u.args[0] == "Mod" and unsnap(u.args[1]).op == "len" and unsnap(unsnap(u.args[1]).args[0]) is x and is_const(v) and cval(v) == 0 and is_const(u.args[2]) and isinstance(cval(u.args[2]), int) and cval(u.args[2]) > 0:
+                        lb = max(lb, 1)
         return lb
 
     def _index_in_range(self, idx: Term, n: int, e: Event) -> bool:
@@ -494,6 +502,17 @@ class ExcAnalysis:
                     return True
         if idx.op == "bin" and idx.args[0] == "Mod" and is_const(idx.args[2]) and isinstance(cval(idx.args[2]), int) and 0 < cval(idx.args[2]) <= n:
             return True
+        # the path to the lookup has tested the index: 0 <= idx <= n - 1 follows from the path facts
+        try:
+            from .facts import Facts
+
+            F = Facts(self._cur_ex) if getattr(self, "_cur_ex", None) is not None else None
+            if F is not None:
+                F.add_event_facts(e)
+                if F.entails(idx) and F.entails(mk("bin", "Sub", C(n - 1), idx)):
+                    return True
+        except RecursionError:
+            pass
         return False
 
     def _index_safe(self, ex, base: Term, idx: Term, e: Event) -> bool:
